@@ -244,15 +244,13 @@ def proof_gate(prop, tier="quick", extra_props=()):
     if rc == 0:
         allow = load_allow()
         for p in (prop,) + tuple(extra_props):
-            os.makedirs(os.path.join(CACHE, "props"), exist_ok=True)
-            scratch = os.path.join(CACHE, "props", "%s_%d.vo" % (p, os.getpid()))
+            sdir = os.path.join(CACHE, "props", str(os.getpid()))
+            os.makedirs(sdir, exist_ok=True)
+            scratch = os.path.join(sdir, p + ".vo")
             cmd = "timeout 900 coqc -q -noglob -Q . V -o %s Props/%s.v" % (scratch, p)
             g.cmds.append("cd coq && " + cmd)
             rc2, out2 = sh(cmd, cwd=COQ)
-            try:
-                os.remove(scratch)
-            except OSError:
-                pass
+            shutil.rmtree(sdir, ignore_errors=True)
             if rc2 != 0:
                 g.ok = False
                 g.problems.append("Props/%s.v does not compile: %s" % (p, out2[-1500:]))
@@ -316,7 +314,7 @@ def run_coq_cases(tag, preamble, case_terms, checker, shard=400, timeout=1800):
     shutil.rmtree(d, ignore_errors=True)
     os.makedirs(d)
     shards = [case_terms[i:i + shard] for i in range(0, len(case_terms), shard)]
-    jobs = []
+    shard_jobs = []
     for k, sh_cases in enumerate(shards):
         name = "cases_%s_%d" % (re.sub(r"\W", "_", tag), k)
         path = os.path.join(d, name + ".v")
@@ -327,7 +325,7 @@ def run_coq_cases(tag, preamble, case_terms, checker, shard=400, timeout=1800):
             f.write("\n].\n")
             f.write('Set Printing Width 1000000. Set Printing Depth 1000000.\n')
             f.write("Eval vm_compute in (%s the_cases).\n" % checker)
-        jobs.append((k, path))
+        shard_jobs.append((k, path))
 
     def one(job):
         k, path = job
@@ -336,7 +334,7 @@ def run_coq_cases(tag, preamble, case_terms, checker, shard=400, timeout=1800):
 
     mism, errors = [], []
     with ThreadPoolExecutor(max_workers=jobs()) as ex:
-        for k, rc, out in ex.map(one, jobs):
+        for k, rc, out in ex.map(one, shard_jobs):
             if rc != 0:
                 errors.append("shard %d: coqc rc=%d: %s" % (k, rc, out[-2000:]))
                 continue
